@@ -9,6 +9,7 @@ func init() {
 			ruleOwnerOverwrite(r)
 			ruleReplayClosesPerFile(r)
 			ruleNoAcquireAfterClose(r)
+			ruleCloseReleasesAll(r)
 			ruleAcquireFailureCloses(r, []string{"simpledb", "sstables", "memstore", "recordio", "recordio/proto", "wal", "wal/proto"})
 			ruleOwnerLocals(r, []string{"simpledb", "sstables", "wal", "memstore", "recordio", "recordio/proto"})
 			ruleEvict(r)
